@@ -228,6 +228,8 @@ pub fn gen_program(ch: &Ch, max_items: usize) -> GenProgram {
       lit: String,
       value: String,
       trivia: &'static str,
+      /// white space put around the literal where the syntax allows it: `import( "x" )`, `from   "x"`
+      pad: &'static str,
     }
     let mut chosen: Vec<Chosen> = vec![];
     for _ in 0..n {
@@ -239,7 +241,9 @@ pub fn gen_program(ch: &Ch, max_items: usize) -> GenProgram {
       let q = if single { '\'' } else { '"' };
       let lit = format!("{q}{}{q}", sp.0);
       let trivia = TRIVIA[ch.choose("trivia", TRIVIA.len())];
-      chosen.push(Chosen { form: f, lit, value: sp.1.to_string(), trivia });
+      // choice 0 = the usual tight spelling
+      let pad = ["", " ", "  ", "\t"][ch.choose("padding_around_literal", 4)];
+      chosen.push(Chosen { form: f, lit, value: sp.1.to_string(), trivia, pad });
     }
     // leading items first, trailing item last (at most one)
     let mut ordered: Vec<&Chosen> = chosen.iter().filter(|c| c.form.place == Place::Leading).collect();
@@ -262,6 +266,15 @@ pub fn gen_program(ch: &Ch, max_items: usize) -> GenProgram {
         text.push_str(c.trivia);
       }
       let (t, items) = (c.form.build)(&c.lit, &c.value, k);
+      // optional white space inside the parentheses of import(...) forms (code,
+      // type positions and JSDoc alike) and after `from`
+      let t = if c.pad.is_empty() {
+        t
+      } else {
+        t.replace(&format!("({})", c.lit), &format!("({}{}{})", c.pad, c.lit, c.pad))
+          .replace(&format!("({},", c.lit), &format!("({}{}{},", c.pad, c.lit, c.pad))
+          .replace(&format!("from {}", c.lit), &format!("from {}{}", c.pad, c.lit))
+      };
       let base = text.len();
       for (cat, attr, _is_pragma) in items {
         // only the first self-types / jsx pragma counts
